@@ -5,6 +5,7 @@
 import datetime
 import itertools
 import json
+import os
 import warnings
 from abc import ABCMeta
 from enum import IntEnum
@@ -32,6 +33,10 @@ from .base_team import BaseTeam
 from .base_worker import BaseWorker, BaseWorkerState
 from .base_workflow import BaseWorkflow
 from .base_workplace import BaseWorkplace
+
+
+# Verification hook switch (off unless PDESY_VERIF=1); see BaseProject._verif_emit
+_VERIF = os.environ.get("PDESY_VERIF") == "1"
 
 
 class SimulationMode(IntEnum):
@@ -176,6 +181,14 @@ class BaseProject(object, metaclass=ABCMeta):
         else:
             self.status = BaseProjectStatus.NONE
 
+    _verif_observer = None
+
+    def _verif_emit(self, phase, **info):
+        """Report a simulation phase to an installed observer (verification only)."""
+        observer = self._verif_observer
+        if observer is not None:
+            observer(self, phase, info)
+
     def __str__(self):
         """str.
 
@@ -293,6 +306,9 @@ class BaseProject(object, metaclass=ABCMeta):
 
         self.perform_auto_task_while_absence_time = perform_auto_task_while_absence_time
 
+        if _VERIF:
+            self._verif_emit("init")
+
         while True:
             # 0. Update status
             self.__update()
@@ -301,6 +317,8 @@ class BaseProject(object, metaclass=ABCMeta):
             state_list = list(map(lambda task: task.state, self.workflow.task_list))
             if all(state == BaseTaskState.FINISHED for state in state_list):
                 self.status = BaseProjectStatus.FINISHED_SUCCESS
+                if _VERIF:
+                    self._verif_emit("returned")
                 return
 
             # Time over check
@@ -309,6 +327,8 @@ class BaseProject(object, metaclass=ABCMeta):
                 warnings.warn(
                     "Time Over! Please check your simulation model or increase max_time value"
                 )
+                if _VERIF:
+                    self._verif_emit("returned")
                 return
 
             # check now is business time or not
@@ -322,16 +342,22 @@ class BaseProject(object, metaclass=ABCMeta):
                 self.organization.check_update_state_from_absence_time_list(self.time)
             else:
                 self.organization.set_absence_state_to_all_workers_facilities()
+            if _VERIF:
+                self._verif_emit("presence", working=working)
 
             # 2. Allocate free workers to READY tasks
             if working:
                 self.__allocate(
                     task_priority_rule=task_priority_rule,
                 )
+            if _VERIF:
+                self._verif_emit("allocated", working=working)
             
             # Update state of task newly allocated workers and facilities (READY -> WORKING)
             self.workflow.check_state(self.time, BaseTaskState.WORKING)
             self.product.check_state()  # product should be checked after checking workflow state
+            if _VERIF:
+                self._verif_emit("started", working=working)
 
             # 3. Pay cost to all workers and facilities in this time
             if working:
@@ -341,6 +367,8 @@ class BaseProject(object, metaclass=ABCMeta):
                     add_zero_to_all_workers=True, add_zero_to_all_facilities=True
                 )
             self.cost_list.append(cost_this_time)
+            if _VERIF:
+                self._verif_emit("cost", working=working)
 
             # 4, Perform
             if working:
@@ -348,9 +376,13 @@ class BaseProject(object, metaclass=ABCMeta):
                     self.__perform()
             elif perform_auto_task_while_absence_time:
                 self.workflow.perform(self.time, only_auto_task=True)
+            if _VERIF:
+                self._verif_emit("performed", working=working)
 
             # 5. Record
             self.__record(working=working)
+            if _VERIF:
+                self._verif_emit("recorded", working=working)
 
             # 6. Update time
             self.time = self.time + unit_time
@@ -422,6 +454,8 @@ class BaseProject(object, metaclass=ABCMeta):
         """
         self.workflow.reverse_dependencies()
         self.organization.reverse_dependencies()
+        if _VERIF:
+            self._verif_emit("bw_enter")
 
         autotask_removing_after_simulation = set()
         try:
@@ -469,6 +503,8 @@ class BaseProject(object, metaclass=ABCMeta):
                 self.reverse_log_information()
             self.workflow.reverse_dependencies()
             self.organization.reverse_dependencies()
+            if _VERIF:
+                self._verif_emit("bw_exit")
 
     def reverse_log_information(self):
         """Reverse log information of all."""
@@ -500,10 +536,18 @@ class BaseProject(object, metaclass=ABCMeta):
     def __update(self):
         self.workflow.check_state(self.time, BaseTaskState.FINISHED)
         self.product.check_state()  # product should be checked after checking workflow state
+        if _VERIF:
+            self._verif_emit("finished")
         self.product.check_removing_placed_workplace()
+        if _VERIF:
+            self._verif_emit("unplaced")
         self.workflow.check_state(self.time, BaseTaskState.READY)
         self.product.check_state()  # product should be checked after checking workflow state
+        if _VERIF:
+            self._verif_emit("ready")
         self.workflow.update_PERT_data(self.time)
+        if _VERIF:
+            self._verif_emit("updated")
 
     def __is_allocated_worker(self, worker, task):
         team = list(
@@ -695,6 +739,8 @@ class BaseProject(object, metaclass=ABCMeta):
                             free_worker_list = [
                                 w for w in free_worker_list if w.ID != worker.ID
                             ]
+            if _VERIF:
+                self._verif_emit("alloc_task", task=task)
 
     def remove_absence_time_list(self):
         """
